@@ -49,6 +49,11 @@ func (ex *Exec) externGlobal(g *ssa.Global) Value {
 		ex.cellSeq++
 		return Pointer{C: &Cell{ID: ex.cellSeq, V: &Opaque{Kind: "extern", Data: name}}}
 	case *types.Map:
+		if name == "github.com/multiformats/go-multihash.Codes" {
+			// only SHA2-256 matters: every other code is rejected by checkHashAlg afterwards
+			ex.stubs["multihash.Codes modelled as {0x12: sha2-256}"] = true
+			return &Map{E: []*MapEntry{{K: smt.I64(0x12), C: ex.cellOf("sha2-256")}}}
+		}
 		return &Map{}
 	}
 	return ex.zero(t)
@@ -270,5 +275,39 @@ func registerModels(P *Program) {
 }
 
 func (ex *Exec) primExt(fn *ssa.Function, args []Value) (Value, bool) {
+	switch fn.Name() {
+	case "vpxSetECDSA":
+		id, _ := term(args[2]).ConstInt64()
+		mk := func(kind string) Value {
+			ex.cellSeq++
+			return Pointer{C: &Cell{ID: ex.cellSeq, V: &Opaque{Kind: kind, Data: int(id)}}}
+		}
+		pk := args[0].(Pointer).C.V.(*StructObj)
+		sk := args[1].(Pointer).C.V.(*StructObj)
+		// locate the ECDSA fields by type
+		setField := func(so *StructObj, t types.Type, v Value) {
+			st := t.Underlying().(*types.Struct)
+			for i := 0; i < st.NumFields(); i++ {
+				if st.Field(i).Name() == "ECDSA" {
+					so.F[i].V = v
+				}
+			}
+		}
+		setField(pk, fn.Signature.Params().At(0).Type().(*types.Pointer).Elem(), mk("ecdsa.PublicKey"))
+		setField(sk, fn.Signature.Params().At(1).Type().(*types.Pointer).Elem(), mk("ecdsa.PrivateKey"))
+		return nil, true
+	case "vpxCorrupt":
+		sl := args[0].(Slice)
+		if sl.A == nil {
+			return sl, true
+		}
+		sm := ex.signedMsgs[sl.A]
+		if sm == nil {
+			return sl, true
+		}
+		a := &ArrObj{E: []*Cell{ex.cellOf(smt.I64(0))}}
+		ex.signedMsgs[a] = &SignedMsg{Key: sm.Key, Valid: smt.False, Payload: sm.Payload}
+		return Slice{A: a, Len: 1, Cap: 1}, true
+	}
 	return nil, false
 }
